@@ -1,34 +1,54 @@
-import Req.Driver.Proto
-import Req.Client.HeaderSort
-/-! Lane handlers: each maps the argument tokens of one case line to one canonical answer line. -/
+import Req.Driver.L.C01
+import Req.Driver.L.C02
+import Req.Driver.L.C03
+import Req.Driver.L.C04
+import Req.Driver.L.C05
+import Req.Driver.L.C06
+import Req.Driver.L.C07
+import Req.Driver.L.C08
+import Req.Driver.L.C09
+import Req.Driver.L.C10
+import Req.Driver.L.C11
+import Req.Driver.L.C12
+import Req.Driver.L.C13
+import Req.Driver.L.C14
+import Req.Driver.L.C15
+import Req.Driver.L.C16
+import Req.Driver.L.C17
+import Req.Driver.L.C18
+import Req.Driver.L.C19
+import Req.Driver.L.C20
+/-! Lane dispatch: a case line is `<lane> <args…>`; the answer is one canonical line. -/
 namespace Req.Driver
-open Req.Proto
 
-def bad : String := "bad-op"
-
-/-- `sort <keys> <order>` → sorted keys (values are carried by position in the harness). -/
-def laneSort : List String → String
-  | [keys, order] =>
-    match decodeList keys, decodeList order with
-    | some ks, some os =>
-      -- tag every key with its input position so equal keys stay distinguishable
-      let kvs := ks.zipIdx.map fun (k, i) => (⟨k, [ofStr (toString i)]⟩ : Req.HeaderSort.KV)
-      let out := Req.HeaderSort.sortKeyValues kvs os
-      encodeList (out.map fun kv => kv.key) ++ " " ++
-        encodeList (out.map fun kv => kv.values.headD [])
-    | _, _ => bad
-  | _ => bad
-
-def lanes : List (String × (List String → String)) := [
-  ("sort", laneSort)
-]
+def allLanes : List (String × (List String → String)) :=
+  L.C01.lanes
+  ++ L.C02.lanes
+  ++ L.C03.lanes
+  ++ L.C04.lanes
+  ++ L.C05.lanes
+  ++ L.C06.lanes
+  ++ L.C07.lanes
+  ++ L.C08.lanes
+  ++ L.C09.lanes
+  ++ L.C10.lanes
+  ++ L.C11.lanes
+  ++ L.C12.lanes
+  ++ L.C13.lanes
+  ++ L.C14.lanes
+  ++ L.C15.lanes
+  ++ L.C16.lanes
+  ++ L.C17.lanes
+  ++ L.C18.lanes
+  ++ L.C19.lanes
+  ++ L.C20.lanes
 
 def dispatch (line : String) : String :=
   match (line.trimAscii.toString.splitOn " ") with
-  | [] => bad
+  | [] => "bad-op"
   | lane :: args =>
-    match lanes.lookup lane with
+    match allLanes.lookup lane with
     | some f => f args
-    | none => bad
+    | none => "bad-op"
 
 end Req.Driver
